@@ -594,8 +594,15 @@ func genItems(t *rapid.T, max int) []string {
 	n := rapid.IntRange(0, max).Draw(t, "nitems")
 	var out []string
 	for i := 0; i < n; i++ {
-		// items of a "; "-separated, "."-terminated list: no "; " inside, no trailing "."
-		it := strings.TrimRight(strings.ReplaceAll(genLine(t, 30), "; ", ";_"), ".")
+		// items of a "; "-separated, "."-terminated list: no "; " inside
+		it := strings.ReplaceAll(genLine(t, 30), "; ", ";_")
+		if rapid.IntRange(0, 4).Draw(t, "period") == 0 {
+			// an entry that ends in periods of its own ("Bacillus sp."): the list is then written with one more
+			it = strings.TrimRight(it, ".") + rapid.SampledFrom([]string{".", "..", " sp."}).Draw(t, "periods")
+		} else {
+			it = strings.TrimRight(it, ".")
+		}
+		it = strings.ReplaceAll(it, "; ", ";_")
 		if it == "" {
 			it = "k"
 		}
